@@ -276,10 +276,10 @@ def check_guarded(F, rep, R, cg, bodies):
             rep.check(flows, "C20-R6", "%s:%s-propagated" % (fn, (t.get("f") or t["tf"]).split("::")[-1]),
                       "the result of %s (line %d) is not propagated with `?`: a missing include would not fail the load" % (t.get("f") or t["tf"], t["l"]),
                       "%s:%d" % (b.file, t["l"]))
-    run_r7(F, rep)
+    run_r7(F, rep, rep.tier)
 
 
-def run_r7(F, rep):
+def run_r7(F, rep, tier="quick"):
     """C20-R7: a line closes a code fence iff it uses the opening marker and is at least as long as the opening run (decided over a finite table)"""
     from lib.facts import find, walk, is_node, path_of, render
     from lib.minieval import ev, NoEval
@@ -311,8 +311,8 @@ def run_r7(F, rep):
     try:
         for lm in ("`", "~"):
             for om in ("`", "~"):
-                for cnt in (3, 4, 5):
-                    for ml in (3, 4, 5):
+                for cnt in ((3, 4, 5) if tier != "thorough" else range(3, 12)):
+                    for ml in ((3, 4, 5) if tier != "thorough" else range(3, 12)):
                         env = {bound[0]: lm, bound[1]: cnt, bound[2]: 0, params[1]: om, params[2]: ml}
                         rejected = any(bool(ev(g, env)) for g in guards)
                         expect_reject = (lm != om) or (cnt < ml)
